@@ -105,20 +105,40 @@ def run(ctx):
         Tf = M.Terms(fn)
         a = [Tf.operand(x) for x in t["args"]]
         cmd = a[0]
-        okc = cmd[0] == "call" and cmd[1] == "std::option::Option::<T>::unwrap_or"
-        if okc:
-            exe, dflt = cmd[2]
-            okc = M.strip(exe) == ("field", ("param", 3, fn.local_name(3)), "executable")
-            d = M.strip(dflt, also=("<std::vec::Vec<T, A> as std::ops::Index<I>>::index",))
-            idx = dflt
+        # the named executable if there is one, else argv[0]: the two alternatives of the program term
+        exe_f = ("field", ("param", 3, fn.local_name(3)), "executable")
+        kinds_ = set()
+        for alt_ in M.alts(cmd):
+            x_ = M.noref(alt_)
+            if x_[0] == "field" and x_[2] == "0" and x_[1][0] == "downcast" and x_[1][2] == "Some" and M.noref(M.strip(x_[1][1])) == exe_f:
+                kinds_.add("exe")
+                continue
+            idx = alt_
             while idx[0] in ("ref", "deref"):
                 idx = idx[1]
-            okc = okc and d == ("param", 2, fn.local_name(2)) and idx[0] == "call" and const_of(idx[2][1]) == 0
+            d = M.strip(alt_, also=("<std::vec::Vec<T, A> as std::ops::Index<I>>::index",))
+            if d == ("param", 2, fn.local_name(2)) and idx[0] == "call" and "index" in idx[1].lower() and const_of(idx[2][1]) == 0:
+                kinds_.add("argv0")
+            else:
+                kinds_.add("?")
+        okc = kinds_ == {"exe", "argv0"}
+        if okc:
+            # argv[0] is used only when no executable is named
+            named = M.Explore(fn, assume_fn=lambda t_: 1 if (t_ and M.noref(M.strip(t_)) == exe_f) else None)
+            okc = bb in named.blocks and set(M.alts(M.Terms(fn, blocks=named.blocks).operand(t["args"][0]))) <= {alt_ for alt_ in M.alts(cmd) if M.noref(alt_)[0] == "field"}
         ctx.ob("R06.1", "program=executable.unwrap_or(argv[0])", okc, fn.loc(bb), "program = %s" % M.term_str(cmd))
         whole = M.strip(a[1]) == ("param", 2, fn.local_name(2)) and not M.contains(a[1], lambda u: u[0] == "call" and ("index" in u[1].lower() or "split" in u[1] or "skip" in u[1]))
         ctx.ob("R06.1", "argv-passed-whole", whole, fn.loc(bb), "argv given to prep_exec = %s (must be the whole vector)" % M.term_str(a[1]))
-        env = M.strip(a[2])
-        oke = env[0] == "call" and env[1] == "std::option::Option::<T>::map" and env[2][1] == ("fnitem", "popen::os::format_env") and M.strip(env[2][0]) == ("field", ("param", 3, fn.local_name(3)), "env")
+        # Some(env) => Some(format_env(env)), None => None
+        env_f = ("field", ("param", 3, fn.local_name(3)), "env")
+        envt = a[2]
+        while envt[0] in ("ref", "deref") or (envt[0] == "call" and envt[1].endswith("::as_deref") and envt[2]):
+            envt = envt[1] if envt[0] in ("ref", "deref") else envt[2][0]
+        ob_ = option_body(prog, fn, Tf, envt, lambda x: M.noref(M.strip(x)) == env_f)
+        oke = ob_ is not None and ob_.none_ok and ob_.payload is not None and len(ob_.results) == 1
+        if oke:
+            v_ = M.noref(ob_.results[0][1])
+            oke = v_[0] == "call" and v_[1] == "popen::os::format_env" and M.noref(M.strip(v_[2][0])) == M.noref(M.strip(ob_.payload))
         ctx.ob("R06.1", "env=config.env.map(format_env)", oke, fn.loc(bb), "env given to prep_exec = %s" % M.term_str(a[2]))
         # R06.2 NUL failures return before fork
         ok_e = try_ok_edges(fn, Tf, lambda c: c[1] == "posix::prep_exec")
